@@ -29,13 +29,13 @@ import (
 // MIN_DELAY_BETWEEN_RAS later — whatever the previous connection's scheduler had in mind.
 //
 //	rein tf window | redialled n t…      (instants of multicast writes on the 2nd connection, from its creation)
-func runReinit(t *testing.T, out *vfh.Out, tf, window time.Duration) {
+func vfRunReinit(t *testing.T, out *vfh.Out, tf, window time.Duration) {
 	out.Pending(fmt.Sprintf("runReinit linkDownAt=%v window=%v", tf, window))
 	// K-2 (a timer of mdlayher/schedgroup armed late, about once in 500 scenarios, typically the
 	// very first one after a start) shows here as a second RA that is late or missing: such a run
 	// is repeated, up to twice; a defect of corerad shows every time
 	for attempt := 0; ; attempt++ {
-		line, late := runReinitOnce(t, tf, window)
+		line, late := vfRunReinitOnce(t, tf, window)
 		if !late || attempt == 2 {
 			out.Line(new(vfh.Toks).S("rein").I(int64(tf)).I(int64(window)).String(), line)
 			out.Flush()
@@ -44,7 +44,7 @@ func runReinit(t *testing.T, out *vfh.Out, tf, window time.Duration) {
 	}
 }
 
-func runReinitOnce(t *testing.T, tf, window time.Duration) (line string, late bool) {
+func vfRunReinitOnce(t *testing.T, tf, window time.Duration) (line string, late bool) {
 	synctest.Test(t, func(t *testing.T) {
 		st := &vfState{forwarding: true}
 		cfg := vfAdvConfig(200*time.Second, 600*time.Second, false, 1800*time.Second)
@@ -55,7 +55,7 @@ func runReinitOnce(t *testing.T, tf, window time.Duration) (line string, late bo
 		var conns []*vfConn
 		d := system.NewDialer("vf0", st, system.Advertise, nil)
 		d.DialFunc = func() (*system.DialContext, error) {
-			c := newVfConn()
+			c := vfNewVfConn()
 			mu.Lock()
 			conns = append(conns, c)
 			mu.Unlock()
@@ -107,9 +107,9 @@ func runReinitOnce(t *testing.T, tf, window time.Duration) (line string, late bo
 // address option (its last byte; 0 = no option) of the first RA written on every connection.
 //
 //	reinlla tf nd (idx mac)* | nconn lla*
-type reinDial struct{ idx, mac int }
+type vfReinDial struct{ idx, mac int }
 
-func runReinitLLA(t *testing.T, out *vfh.Out, tf time.Duration, dials []reinDial) {
+func vfRunReinitLLA(t *testing.T, out *vfh.Out, tf time.Duration, dials []vfReinDial) {
 	out.Pending(fmt.Sprintf("runReinitLLA every=%v dials=%+v", tf, dials))
 	synctest.Test(t, func(t *testing.T) {
 		st := &vfState{forwarding: true}
@@ -121,7 +121,7 @@ func runReinitLLA(t *testing.T, out *vfh.Out, tf time.Duration, dials []reinDial
 		var conns []*vfConn
 		d := system.NewDialer("vf0", st, system.Advertise, nil)
 		d.DialFunc = func() (*system.DialContext, error) {
-			c := newVfConn()
+			c := vfNewVfConn()
 			mu.Lock()
 			k := len(conns)
 			conns = append(conns, c)
@@ -183,7 +183,7 @@ func runReinitLLA(t *testing.T, out *vfh.Out, tf time.Duration, dials []reinDial
 // verifReinitState: what a (re)initialisation reads of the system (the hardware address behind the
 // source link-layer address option) is read at EVERY (re)initialisation (C01).
 func verifReinitState(t *testing.T, r *vfh.Rand, out *vfh.Out) {
-	fixed := [][]reinDial{
+	fixed := [][]vfReinDial{
 		{{1, 1}, {1, 2}},         // same index, the hardware address changed
 		{{1, 1}, {1, 0}},         // … disappeared
 		{{1, 0}, {1, 3}},         // … appeared
@@ -193,15 +193,15 @@ func verifReinitState(t *testing.T, r *vfh.Rand, out *vfh.Out) {
 		{{1, 1}, {2, 2}, {1, 3}},
 	}
 	for _, ds := range fixed {
-		runReinitLLA(t, out, 5*time.Second+1, ds)
+		vfRunReinitLLA(t, out, 5*time.Second+1, ds)
 	}
 	for i := vfh.N(12, 200); i > 0; i-- {
 		n := 2 + r.Intn(3)
-		ds := make([]reinDial, n)
+		ds := make([]vfReinDial, n)
 		for k := range ds {
-			ds[k] = reinDial{idx: 1 + r.Intn(2), mac: r.Intn(5)}
+			ds[k] = vfReinDial{idx: 1 + r.Intn(2), mac: r.Intn(5)}
 		}
-		runReinitLLA(t, out, time.Duration(r.Range(int64(time.Second), int64(20*time.Second)))|1, ds)
+		vfRunReinitLLA(t, out, time.Duration(r.Range(int64(time.Second), int64(20*time.Second)))|1, ds)
 	}
 }
 
@@ -212,7 +212,7 @@ func verifReinitState(t *testing.T, r *vfh.Rand, out *vfh.Out) {
 // used any more.  monitor = the same for a monitoring task.
 //
 //	flap monitor tf k | dials oldUse served
-func runLinkFlap(t *testing.T, out *vfh.Out, monitor bool, tf time.Duration, k int) {
+func vfRunLinkFlap(t *testing.T, out *vfh.Out, monitor bool, tf time.Duration, k int) {
 	out.Pending(fmt.Sprintf("runLinkFlap monitor=%v linkDownAt=%v queuedDuringDials=%d", monitor, tf, k))
 	synctest.Test(t, func(t *testing.T) {
 		st := &vfState{forwarding: true}
@@ -230,7 +230,7 @@ func runLinkFlap(t *testing.T, out *vfh.Out, monitor bool, tf time.Duration, k i
 		start := time.Now()
 		d := system.NewDialer("vf0", st, mode, nil)
 		d.DialFunc = func() (*system.DialContext, error) {
-			c := newVfConn()
+			c := vfNewVfConn()
 			c.t0 = start
 			mu.Lock()
 			n := len(conns)
@@ -248,7 +248,7 @@ func runLinkFlap(t *testing.T, out *vfh.Out, monitor bool, tf time.Duration, k i
 		// for an advertising task the link drops again AFTER the dial has returned and before the new
 		// incarnation watches the channel: while Run prepares the plugins for the new connection
 		nPrep := 0
-		cfg.Plugins = append(cfg.Plugins, &hookPlugin{prepare: func() {
+		cfg.Plugins = append(cfg.Plugins, &vfHookPlugin{prepare: func() {
 			nPrep++
 			if nPrep >= 2 && nPrep <= k+1 {
 				watchC <- netstate.LinkDown
@@ -275,7 +275,7 @@ func runLinkFlap(t *testing.T, out *vfh.Out, monitor bool, tf time.Duration, k i
 		// the last connection serves (a message handed to it is read); the earlier ones are left
 		// alone (a message handed to them finds no reader)
 		oldUse, served := 0, false
-		msg := vfRead{m: advMessage(advEvent{kind: 0, host: 1}), hop: 255, host: vfHosts[1].WithZone("vf0")}
+		msg := vfRead{m: vfAdvMessage(vfAdvEvent{kind: 0, host: 1}), hop: 255, host: vfHosts[1].WithZone("vf0")}
 		for i, c := range cs {
 			if i == len(cs)-1 {
 				served = c.deliver(msg)
@@ -297,21 +297,21 @@ func runLinkFlap(t *testing.T, out *vfh.Out, monitor bool, tf time.Duration, k i
 
 // hookPlugin adds nothing to the RA; its Prepare runs a hook (Prepare is called by Advertiser.Run
 // for every established connection, right before the incarnation's goroutines are started).
-type hookPlugin struct{ prepare func() }
+type vfHookPlugin struct{ prepare func() }
 
-func (*hookPlugin) Name() string   { return "verif-hook" }
-func (*hookPlugin) String() string { return "verif-hook" }
-func (p *hookPlugin) Prepare(*net.Interface) error {
+func (*vfHookPlugin) Name() string   { return "verif-hook" }
+func (*vfHookPlugin) String() string { return "verif-hook" }
+func (p *vfHookPlugin) Prepare(*net.Interface) error {
 	p.prepare()
 	return nil
 }
-func (*hookPlugin) Apply(*ndp.RouterAdvertisement) error { return nil }
+func (*vfHookPlugin) Apply(*ndp.RouterAdvertisement) error { return nil }
 
 // runAdvCountdown (C16): a deprecated prefix and a deprecated route inside a running advertiser.  EVERY
 // RA it transmits — initial, periodic, solicited, and the final one on termination — advertises the
 // time remaining at the moment that RA is built.  One `pl` and one `rl` case line per run: the
 // instants of the transmissions (virtual time) and the lifetimes each carried.
-func runAdvCountdown(t *testing.T, out *vfh.Out, V, P, L, age, stop time.Duration, solicitAt []time.Duration) {
+func vfRunAdvCountdown(t *testing.T, out *vfh.Out, V, P, L, age, stop time.Duration, solicitAt []time.Duration) {
 	out.Pending(fmt.Sprintf("runAdvCountdown V=%v P=%v L=%v age=%v stop=%v solicit=%v", V, P, L, age, stop, solicitAt))
 	synctest.Test(t, func(t *testing.T) {
 		epoch := time.Now().Add(-age)
@@ -321,7 +321,7 @@ func runAdvCountdown(t *testing.T, out *vfh.Out, V, P, L, age, stop time.Duratio
 				ValidLifetime: V, PreferredLifetime: P, Deprecated: true, Epoch: epoch},
 			&plugin.Route{Prefix: netip.MustParsePrefix("2001:db8:beef::/48"), Preference: ndp.Medium, Lifetime: L, Deprecated: true, Epoch: epoch},
 		}
-		v := newVfAdv(cfg, true, nil)
+		v := vfNewVfAdv(cfg, true, nil)
 		// the connection stamps every write with the wall clock of the bubble
 		ctx, cancel := context.WithCancel(context.Background())
 		start := time.Now()
@@ -333,7 +333,7 @@ func runAdvCountdown(t *testing.T, out *vfh.Out, V, P, L, age, stop time.Duratio
 			if d := at - time.Since(start); d > 0 {
 				time.Sleep(d)
 			}
-			v.conn.deliver(vfRead{m: advMessage(advEvent{kind: 0, host: 1}), hop: 255, host: vfHosts[1].WithZone("vf0")})
+			v.conn.deliver(vfRead{m: vfAdvMessage(vfAdvEvent{kind: 0, host: 1}), hop: 255, host: vfHosts[1].WithZone("vf0")})
 			synctest.Wait()
 		}
 		if d := stop - time.Since(start); d > 0 {
@@ -375,8 +375,8 @@ func runAdvCountdown(t *testing.T, out *vfh.Out, V, P, L, age, stop time.Duratio
 }
 
 func verifAdvCountdown(t *testing.T, r *vfh.Rand, out *vfh.Out) {
-	runAdvCountdown(t, out, 20*time.Second, 10*time.Second, 15*time.Second, 0, 13*time.Second+1, nil)
-	runAdvCountdown(t, out, 4*time.Second, 2*time.Second, 3*time.Second, 0, 4500*time.Millisecond, nil)
+	vfRunAdvCountdown(t, out, 20*time.Second, 10*time.Second, 15*time.Second, 0, 13*time.Second+1, nil)
+	vfRunAdvCountdown(t, out, 4*time.Second, 2*time.Second, 3*time.Second, 0, 4500*time.Millisecond, nil)
 	for k := vfh.N(40, 1000); k > 0; k-- {
 		V := time.Duration(r.Range(int64(time.Second), int64(40*time.Second)))
 		P := time.Duration(r.Range(1, int64(V)))
@@ -387,27 +387,27 @@ func verifAdvCountdown(t *testing.T, r *vfh.Rand, out *vfh.Out) {
 			sol = append(sol, time.Duration(r.Range(1, int64(stop)))|1)
 		}
 		sort.Slice(sol, func(i, j int) bool { return sol[i] < sol[j] })
-		runAdvCountdown(t, out, V, P, L, time.Duration(r.Range(0, int64(20*time.Second))), stop, sol)
+		vfRunAdvCountdown(t, out, V, P, L, time.Duration(r.Range(0, int64(20*time.Second))), stop, sol)
 	}
 }
 
 func verifLinkFlap(t *testing.T, r *vfh.Rand, out *vfh.Out) {
 	for _, mon := range []bool{false, true} {
 		for k := 0; k <= 3; k++ {
-			runLinkFlap(t, out, mon, 5*time.Second+1, k)
+			vfRunLinkFlap(t, out, mon, 5*time.Second+1, k)
 		}
 	}
 	for i := vfh.N(8, 200); i > 0; i-- {
-		runLinkFlap(t, out, r.Bool(), time.Duration(r.Range(1, int64(60*time.Second)))|1, r.Intn(5))
+		vfRunLinkFlap(t, out, r.Bool(), time.Duration(r.Range(1, int64(60*time.Second)))|1, r.Intn(5))
 	}
 }
 
 func verifReinit(t *testing.T, r *vfh.Rand, out *vfh.Out) {
 	for _, tf := range []time.Duration{1, 500 * time.Millisecond, 2900 * time.Millisecond, 3*time.Second + 1, 3100 * time.Millisecond, 10 * time.Second, 250 * time.Second} {
-		runReinit(t, out, tf|1, 5*time.Second)
+		vfRunReinit(t, out, tf|1, 5*time.Second)
 	}
 	for i := vfh.N(10, 300); i > 0; i-- {
-		runReinit(t, out, time.Duration(r.Range(1, int64(300*time.Second)))|1, 5*time.Second)
+		vfRunReinit(t, out, time.Duration(r.Range(1, int64(300*time.Second)))|1, 5*time.Second)
 	}
 }
 
@@ -416,12 +416,12 @@ func verifReinit(t *testing.T, r *vfh.Rand, out *vfh.Out) {
 // fails. Every failed transmission must be counted, whichever of them the scheduler hears of.
 //
 //	tf n lat | outcome errors sentUnicast
-func runConcurrentFailures(t *testing.T, out *vfh.Out, n int, lat time.Duration) {
+func vfRunConcurrentFailures(t *testing.T, out *vfh.Out, n int, lat time.Duration) {
 	out.Pending(fmt.Sprintf("runConcurrentFailures n=%d latency=%v", n, lat))
 	// K-2: an answer whose timer is armed late may not have started when the first one fails (it
 	// is then never transmitted): such a run is repeated, up to twice
 	for attempt := 0; ; attempt++ {
-		line, fewer := runConcurrentFailuresOnce(t, n, lat)
+		line, fewer := vfRunConcurrentFailuresOnce(t, n, lat)
 		if !fewer || attempt == 2 {
 			out.Line(new(vfh.Toks).S("tfl").N(n).I(int64(lat)).String(), line)
 			out.Flush()
@@ -430,9 +430,9 @@ func runConcurrentFailures(t *testing.T, out *vfh.Out, n int, lat time.Duration)
 	}
 }
 
-func runConcurrentFailuresOnce(t *testing.T, n int, lat time.Duration) (line string, fewer bool) {
+func vfRunConcurrentFailuresOnce(t *testing.T, n int, lat time.Duration) (line string, fewer bool) {
 	synctest.Test(t, func(t *testing.T) {
-		v := newVfAdv(vfAdvConfig(200*time.Second, 600*time.Second, false, 1800*time.Second), false, nil)
+		v := vfNewVfAdv(vfAdvConfig(200*time.Second, 600*time.Second, false, 1800*time.Second), false, nil)
 		v.conn.latency = func(_ int, dst netip.Addr) time.Duration {
 			if dst == vfAllNodes {
 				return 0
@@ -454,9 +454,9 @@ func runConcurrentFailuresOnce(t *testing.T, n int, lat time.Duration) (line str
 		for k := 0; k < n; k++ {
 			h := vfHosts[1+k%4]
 			if n > 4 {
-				h = manyHost(100 + k) // a crowd of distinct solicitors (a switch coming back)
+				h = vfManyHost(100 + k) // a crowd of distinct solicitors (a switch coming back)
 			}
-			if !v.conn.deliver(vfRead{m: advMessage(advEvent{kind: 0, host: 1 + k%4}), hop: 255, host: h.WithZone("vf0")}) {
+			if !v.conn.deliver(vfRead{m: vfAdvMessage(vfAdvEvent{kind: 0, host: 1 + k%4}), hop: 255, host: h.WithZone("vf0")}) {
 				break
 			}
 		}
@@ -493,11 +493,11 @@ func runConcurrentFailuresOnce(t *testing.T, n int, lat time.Duration) (line str
 
 func verifConcurrentFailures(t *testing.T, out *vfh.Out) {
 	for _, n := range []int{1, 2, 3, 4} {
-		runConcurrentFailures(t, out, n, 700*time.Millisecond)
-		runConcurrentFailures(t, out, n, 2*time.Second)
+		vfRunConcurrentFailures(t, out, n, 700*time.Millisecond)
+		vfRunConcurrentFailures(t, out, n, 2*time.Second)
 	}
 	// a crowd: more answers in flight together than any bound the scheduler may keep
 	for _, n := range []int{17, 64, 65, 130} {
-		runConcurrentFailures(t, out, n, 700*time.Millisecond)
+		vfRunConcurrentFailures(t, out, n, 700*time.Millisecond)
 	}
 }
